@@ -115,6 +115,7 @@ type Exec struct {
 	res      Result
 	objIDs   map[interface{}]int
 	chanPins map[uintptr]interface{}
+	atomicVC vclock
 	epoch    uint64
 	chans    map[uintptr]*chanState
 	race     *raceState
